@@ -3,7 +3,7 @@ From Coq Require Import List ZArith.
 Require Import Avro.Model.Base Avro.Model.Prim Avro.Model.Schema Avro.Model.GoType
                Avro.Model.Spec Avro.Model.Codec Avro.Model.Denote.
 Require Import Avro.Proofs.Wire Avro.Proofs.BuildP Avro.Proofs.ReadP Avro.Proofs.PrimP.
-Require Import Avro.Model.Container Avro.Proofs.ContainerP Avro.Proofs.FileP Avro.Proofs.EndToEnd.
+Require Import Avro.Model.Container Avro.Proofs.ContainerP Avro.Proofs.FileP Avro.Proofs.EndToEnd Avro.Proofs.ReadSoundP.
 Import ListNotations.
 Open Scope Z_scope.
 
@@ -45,6 +45,29 @@ Theorem C03_record_value : forall reg s t om c, build reg s t om = Some c ->
   rec_decodes (rr c fuel dest) r /\ forall rest, rv c fuel dest (r ++ rest) = Some v'.
 Proof. intros reg s t om c Hb fuel dest r v'. exact (spec_record_decodes reg s t om c Hb fuel dest r v'). Qed.
 Print Assumptions C03_record_value.
+
+(* The converse: whenever the library's reader succeeds on input the reference
+   decoder accepts as datum d, what it returns is exactly the datum's image
+   [apply_datum c dest d] and it stops where the encoding ends.  Together with
+   C03_reader_complete: the read succeeds if and only if d has an image in the
+   destination; a datum that does not fit (an integer outside the Go width, a
+   timestamp text that does not parse, at any depth of records, arrays, maps,
+   unions and pointers) is refused, never silently altered. *)
+Theorem C03_reader_sound : forall reg s t om c fuel dest bs d r v r',
+  build reg s t om = Some c -> sd fuel s bs = Done d r -> c_read fuel c dest bs = Done v r' ->
+  apply_datum c dest d = Some v /\ r' = r.
+Proof. intros reg s t om c fuel dest bs d r v r' Hb. eapply read_sound. eapply build_wire. exact Hb. Qed.
+Print Assumptions C03_reader_sound.
+
+Theorem C03_succeeds_iff_fits : forall reg s t om c fuel dest bs d r,
+  build reg s t om = Some c -> sd fuel s bs = Done d r ->
+  ((exists v r', c_read fuel c dest bs = Done v r') <-> (exists v, apply_datum c dest d = Some v)).
+Proof.
+  intros reg s t om c fuel dest bs d r Hb Hsd. pose proof (build_wire _ _ _ _ _ Hb) as W. split.
+  - intros (v & r' & Hr). exists v. exact (proj1 (read_sound fuel c s dest bs d r v r' W Hsd Hr)).
+  - intros (v & Ha). exists v, r. eapply read_complete; eauto.
+Qed.
+Print Assumptions C03_succeeds_iff_fits.
 
 (* non-vacuity: one datum, two legal serialisations, two compatible targets *)
 Example C03_ex :
